@@ -1,4 +1,217 @@
+/-
+  C08 — Abstract memory behaves as a last-write-wins byte store.
+  Property theorems only (helper lemmas live in Amoco/Proofs/Memory.lean).
+
+  Vocabulary (defined in the model / proofs files):
+    `Zone.WF z`      the zone invariant: no empty object, every object ends at or before the start of
+                     every later object (hence sorted and pairwise disjoint), cache = start addresses;
+    `Zone.abs z`     the zone as a partial byte map `Int → Option ByteDesc`;
+    `override f g`   `g` written over `f`;     `absWrite a v en` the bytes a write puts at `a…`;
+    `window f a n`   `(List.range n).map (fun k => f (a + k))`, what a byte store returns for a read;
+    `flattenItems`   a read result flattened to one `Option ByteDesc` per byte (`none` = bottom).
+  All theorems hold for every zone / history / address / length; the only hypothesis on written
+  values is that they are non-empty.
+-/
 import Amoco.Model.Memory
 import Amoco.Proofs.Memory
+
 namespace Amoco.Memory.Props
+
+open Amoco Amoco.Memory
+
+/-! ## The invariant `ZoneWF` and the operations that preserve it -/
+
+/-- what the invariant says, spelled out on indices. -/
+theorem zoneWF_meaning (z : Zone) (wf : z.WF) :
+    (∀ o ∈ z.map, 0 < o.len) ∧
+    (∀ i j (hi : i < j) (hj : j < z.map.length), (z.map[i]'(by omega)).fin ≤ (z.map[j]).vaddr) ∧
+    z.cache = z.map.map Mo.vaddr := by
+  refine ⟨wf.1.1, ?_, wf.2⟩
+  intro i j hi hj
+  exact (List.pairwise_iff_getElem.mp wf.1.2) i j (by omega) hj hi
+
+theorem zoneWF_empty : Zone.empty.WF := Zone.empty_wf
+
+theorem zoneWF_addtomap (z : Zone) (o : Mo) (wf : z.WF) (ho : 0 < o.len) : (z.addtomap o).WF :=
+  (Zone.addtomap_spec z o wf ho).1
+
+theorem zoneWF_write (z : Zone) (a : Int) (v : Val) (en : Endian) (wf : z.WF) (hv : 0 < v.len) :
+    (z.write a v en).WF := (Zone.write_spec z a v en wf hv).1
+
+theorem zoneWF_restruct (z : Zone) (wf : z.WF) : z.restruct.WF := (Zone.restruct_spec z wf).1
+
+theorem zoneWF_shift (z : Zone) (off : Int) (wf : z.WF) : (z.shift off).WF := (Zone.shift_spec z off wf).1
+
+theorem zoneWF_copy (z : Zone) (wf : z.WF) : z.copy.WF := (Zone.copy_spec z wf.1).1
+
+theorem zoneWF_merge (z other : Zone) (wf : z.WF) (wfo : other.WF) : (z.mergeWith other).WF :=
+  (Zone.mergeWith_spec z other wf wfo.1).1
+
+/-- K-tie: the executable checker run on dumps of the real `MemoryZone` is sound (and complete). -/
+theorem check_sound (z : Zone) (h : z.check = true) : z.WF := Zone.check_sound z h
+
+theorem check_complete (z : Zone) (wf : z.WF) : z.check = true := Zone.check_complete z wf
+
+/-! ## Writing is overriding -/
+
+/-- `addtomap` (all its `i`/`j` cases) = the new object written over the old content. -/
+theorem abs_addtomap (z : Zone) (o : Mo) (wf : z.WF) (ho : 0 < o.len) :
+    (z.addtomap o).abs = override z.abs (absMo o) := (Zone.addtomap_spec z o wf ho).2
+
+theorem abs_write (z : Zone) (a : Int) (v : Val) (en : Endian) (wf : z.WF) (hv : 0 < v.len) :
+    (z.write a v en).abs = override z.abs (absWrite a v en) := (Zone.write_spec z a v en wf hv).2
+
+/-- the written bytes are what the value is, in memory order, whatever `datadiv.__init__` made of it. -/
+theorem absWrite_bytes (a : Int) (v : Val) (en : Endian) (k : Nat) :
+    absWrite a v en (a + (k : Int)) = (v.memBytes en)[k]? := by
+  unfold absWrite
+  have : a ≤ a + (k : Int) := by omega
+  simp only [this, if_true]
+  congr 1; omega
+
+/-! ## Reading returns the abstraction, byte for byte -/
+
+theorem read_refines (z : Zone) (a : Int) (n : Nat) (wf : z.WF) :
+    flattenItems (z.read a n) = (List.range n).map (fun (k : Nat) => z.abs (a + (k : Int))) :=
+  Zone.read_spec z a n wf
+
+/-- a read of `n` bytes returns items of total length `n`. -/
+theorem read_length (z : Zone) (a : Int) (n : Nat) (wf : z.WF) : (flattenItems (z.read a n)).length = n := by
+  rw [read_refines z a n wf]; simp
+
+/-- byte `k` of a read is the content of address `a + k`; `none` (a byte of a bottom item) exactly when
+    the address was never written. -/
+theorem read_byte (z : Zone) (a : Int) (n k : Nat) (wf : z.WF) (hk : k < n) :
+    (flattenItems (z.read a n))[k]? = some (z.abs (a + (k : Int))) := by
+  rw [read_refines z a n wf, List.getElem?_map, List.getElem?_range hk]; rfl
+
+/-! ## restruct / shift / copy / merge do not change what a read returns -/
+
+theorem abs_restruct (z : Zone) (wf : z.WF) : z.restruct.abs = z.abs := (Zone.restruct_spec z wf).2
+
+theorem abs_shift (z : Zone) (off : Int) (wf : z.WF) : (z.shift off).abs = fun q => z.abs (q - off) :=
+  (Zone.shift_spec z off wf).2
+
+theorem abs_copy (z : Zone) (wf : z.WF) : z.copy.abs = z.abs := (Zone.copy_spec z wf.1).2
+
+theorem abs_merge (z other : Zone) (wf : z.WF) (wfo : other.WF) :
+    (z.mergeWith other).abs = override z.abs other.abs := (Zone.mergeWith_spec z other wf wfo.1).2
+
+theorem read_restruct (z : Zone) (a : Int) (n : Nat) (wf : z.WF) :
+    flattenItems (z.restruct.read a n) = flattenItems (z.read a n) := by
+  rw [Zone.read_spec _ a n (zoneWF_restruct z wf), Zone.read_spec z a n wf, abs_restruct z wf]
+
+theorem read_copy (z : Zone) (a : Int) (n : Nat) (wf : z.WF) :
+    flattenItems (z.copy.read a n) = flattenItems (z.read a n) := by
+  rw [Zone.read_spec _ a n (zoneWF_copy z wf), Zone.read_spec z a n wf, abs_copy z wf]
+
+theorem read_shift (z : Zone) (off a : Int) (n : Nat) (wf : z.WF) :
+    flattenItems ((z.shift off).read (a + off) n) = flattenItems (z.read a n) := by
+  rw [Zone.read_spec _ _ n (zoneWF_shift z off wf), Zone.read_spec z a n wf, abs_shift z off wf]
+  unfold window
+  apply List.map_congr_left
+  intro k _
+  show z.abs (a + off + (k : Int) - off) = z.abs (a + (k : Int))
+  congr 1; omega
+
+/-! ## Whole histories -/
+
+/-- Induction over any history of writes (any value, size ≥ 1, either endianness, any overlap),
+    restructs, copies, shifts and merges: the zone stays well formed and is the byte store. -/
+theorem history_last_write_wins (ops : List ZOp) (h : ∀ op ∈ ops, op.ok) :
+    (runZone ops).WF ∧ (runZone ops).abs = specZone ops :=
+  runFrom_spec ops Zone.empty Zone.empty_wf h
+
+/-- …and so every read after every history returns the byte store's answer. -/
+theorem read_history (ops : List ZOp) (h : ∀ op ∈ ops, op.ok) (a : Int) (n : Nat) :
+    flattenItems ((runZone ops).read a n) = (List.range n).map (fun (k : Nat) => specZone ops (a + (k : Int))) := by
+  obtain ⟨wf, ab⟩ := history_last_write_wins ops h
+  rw [read_refines _ a n wf, ab]
+
+/-- for a pure write history the byte store is literally "the most recent write covering the byte". -/
+theorem writes_last_write_wins (ws : List WriteOp) (h : ∀ w ∈ ws, 0 < w.2.1.len) (q : Int) :
+    (writesZone ws).abs q = lastWrite ws q := by
+  obtain ⟨_, ab⟩ := writesZone_spec ws Zone.empty Zone.empty_wf h
+  have e : (writesZone ws).abs = specWrites ws Zone.empty.abs := ab
+  rw [e, specWrites_eq]
+  simp [Zone.empty_abs]
+
+/-! ## MemoryMap: zone selection, concrete and symbol-relative zones -/
+
+theorem mmap_wf_empty : MMap.empty.WF := MMap.empty_wf
+
+/-- a write at an address that denotes a location `(zone key r, offset o)` succeeds, creates the zone if
+    needed, overrides the bytes of that zone and leaves every other zone alone. -/
+theorem mmap_write (mm : MMap) (addr : Addr) (v : Val) (en : Endian) (r : ZKey) (d : Bool) (o : Int)
+    (wf : mm.WF) (href : reference addr = .ok (r, d, o)) (hd : r.isSome = true → d = true) (hv : 0 < v.len) :
+    ∃ mm', mm.write addr v en = .ok mm' ∧ mm'.WF ∧
+      ∀ k, mm'.absK k = if k = r then override (mm.absK r) (absWrite o v en) else mm.absK k :=
+  MMap.write_spec mm addr v en r d o wf href hd hv
+
+/-- a read goes to the zone the address denotes: it returns that zone's bytes, or `MemoryError`
+    exactly when the zone was never created (then it holds no byte at all). -/
+theorem mmap_read (mm : MMap) (addr : Addr) (n : Nat) (r : ZKey) (d : Bool) (o : Int)
+    (wf : mm.WF) (href : reference addr = .ok (r, d, o)) :
+    match mm.getZone r with
+    | some _ => ∃ items, mm.read addr n = .ok items ∧
+        flattenItems items = (List.range n).map (fun (k : Nat) => mm.absK r (o + (k : Int)))
+    | none => mm.read addr n = .error .memoryError ∧ mm.absK r = fun _ => none :=
+  MMap.read_spec mm addr n r d o wf href
+
+theorem mmap_restruct (mm : MMap) (wf : mm.WF) : mm.restruct.WF ∧ ∀ k, mm.restruct.absK k = mm.absK k :=
+  MMap.restruct_spec mm wf
+
+theorem mmap_copy (mm : MMap) (wf : mm.WF) : mm.copy.WF ∧ ∀ k, mm.copy.absK k = mm.absK k :=
+  MMap.copy_spec mm wf
+
+theorem mmap_merge (mm other : MMap) (wf : mm.WF) (wfo : other.WF) :
+    (mm.merge other).WF ∧ ∀ k, (mm.merge other).absK k = override (mm.absK k) (other.absK k) :=
+  MMap.merge_spec mm other wf wfo
+
+/-- histories over a whole `MemoryMap` (writes at concrete / constant / pointer / symbol-relative
+    addresses, invalid addresses included, restruct, copy, per-zone shift, merge). -/
+theorem mmap_history (ops : List MOp) (h : ∀ op ∈ ops, op.ok) :
+    (runMMap ops).WF ∧ ∀ k, (runMMap ops).absK k = specMMap ops k := by
+  have := runMMapFrom_spec ops MMap.empty MMap.empty_wf h
+  refine ⟨this.1, fun k => ?_⟩
+  have he : MMap.empty.absK = fun _ _ => none := funext MMap.empty_absK
+  unfold specMMap runMMap
+  rw [this.2 k, he]
+
+/-! ## Non-vacuity -/
+
+/-- a history with an overlap inside raw bytes by a big-endian expression, an adjacent write, a partial
+    overwrite of the expression, a restruct, a shift and a merge. -/
+def exOps : List ZOp :=
+  [.write 16 (.raw [1, 2, 3, 4, 5, 6]) .little,
+   .write 18 (.ex [.sym 1 0, .sym 1 1, .sym 1 2, .sym 1 3]) .big,
+   .write 22 (.ex [.raw 0xaa, .raw 0xbb]) .big,
+   .write 20 (.raw [9]) .little,
+   .restruct, .shift 4,
+   .merge [(21, .ex [.sym 2 0, .sym 2 1], .little)], .copy]
+
+example : ∀ op ∈ exOps, op.ok := by
+  intro op h
+  simp only [exOps, List.mem_cons, List.not_mem_nil, or_false] at h
+  rcases h with rfl | rfl | rfl | rfl | rfl | rfl | rfl | rfl <;> simp [ZOp.ok, Val.len]
+
+-- the byte store of that history: address 23 (= 19 shifted by 4) holds byte 2 of atom 1 (big endian)
+example : specZone exOps 23 = some (.sym 1 2) := by decide
+example : specZone exOps 24 = some (.raw 9) := by decide
+example : specZone exOps 22 = some (.sym 2 1) := by decide
+example : specZone exOps 26 = some (.raw 0xbb) := by decide
+example : specZone exOps 19 = none := by decide
+
+-- hypotheses of the single-step theorems are satisfiable
+example : Zone.empty.WF ∧ 0 < (Mo.new 0 (.raw [1]) .little).len := ⟨Zone.empty_wf, by decide⟩
+example : (Zone.empty.write 5 (.ex [.sym 1 0, .sym 1 1]) .big).WF :=
+  zoneWF_write _ _ _ _ Zone.empty_wf (by decide)
+example : ∃ r d o, reference (.ptrSym "esp" true (-4)) = .ok (r, d, o) ∧ (r.isSome = true → d = true) :=
+  ⟨some "esp", true, -4, rfl, fun _ => rfl⟩
+example : ∀ op ∈ [MOp.write (.ptrSym "esp" true (-4)) (.raw [1, 2]) .little, .write .other (.raw [3]) .big, .copy],
+    op.ok := by
+  intro op h
+  simp only [List.mem_cons, List.not_mem_nil, or_false] at h
+  rcases h with rfl | rfl | rfl <;> simp [MOp.ok, Val.len]
+
 end Amoco.Memory.Props
